@@ -225,7 +225,7 @@ func scenC04(w *vsim.World, spec *vsim.Spec) {
 				}
 			}
 			if !found && stalledWriter[g.hash] && stalledRenameAt[g.hash].After(g.start) {
-				w.ViolationSig("c04/fresh-block-gone", "writer-stalled-a-whole-ttl-replaces-fresher-copy-with-its-old-timestamp", "block %s was PUT/TOUCHed (acknowledged; operation started %s ago), then a PUT of the same block that had been in flight for longer than the TTL (stalled between choosing its timestamp and its rename) replaced that copy with a file carrying its own, TTL-old timestamp, and a trash request removed it; TTL is %s (last step: %+v)", g.hash[:8], now.Sub(g.start), ttl, last)
+				w.ViolationSig("c04/fresh-block-gone", "writer-stalled-a-whole-ttl-replaces-fresher-copy-with-its-old-timestamp", "block %s was PUT/TOUCHed (acknowledged; operation started %s ago), then a PUT or TOUCH of the same block that had been in flight for longer than the TTL (stalled between reading the clock and its rename/utimes) gave the block its own, TTL-old timestamp, and a trash request removed it; TTL is %s (last step: %+v)", g.hash[:8], now.Sub(g.start), ttl, last)
 				return
 			}
 			if !found {
@@ -270,6 +270,14 @@ func scenC04(w *vsim.World, spec *vsim.Spec) {
 				stalledWriter[base] = true
 				stalledRenameAt[base] = time.Now()
 				w.Probe("writer-in-flight-for-a-whole-ttl")
+			}
+		}
+		if s.Op == "chtimes" && time.Since(taskStart[root]) >= ttl {
+			// a Touch (TOUCH, or PUT of an existing copy) that read the clock a whole TTL ago applies that timestamp now
+			if base := filepath.Base(s.Path); len(base) == 32 {
+				stalledWriter[base] = true
+				stalledRenameAt[base] = time.Now()
+				w.Probe("touch-in-flight-for-a-whole-ttl")
 			}
 		}
 		if strings.HasSuffix(s.Task, "trashworker") && s.Op == "stat" {
